@@ -76,6 +76,9 @@ def class_examples(rng, g, e=None):
         p.Call(x, (e(), e())), p.Call(x, ()),
         p.CallWithKwargs(x, (e(),), immutabledict({"a": e(), "b": 2})),
         p.CallWithKwargs(x, (e(),), {"b": 2, "a": 1}),
+        # keyword arguments given as a plain (mutable) dict, also an EMPTY one, vs. the frozen form
+        p.CallWithKwargs(x, (x,), {}), p.CallWithKwargs(x, (x,), immutabledict()),
+        p.CallWithKwargs(x, (), {"a": 1}), p.CallWithKwargs(x, (), immutabledict({"a": 1})),
         p.Subscript(x, e()), p.Subscript(x, (e(), 1)), p.Lookup(e(), "nm"),
         p.Sum((e(), e())), p.Sum(()), p.Sum((e(),)), p.Product((e(), e())), p.Product(()),
         p.Quotient(e(), e()), p.FloorDiv(e(), e()), p.Remainder(e(), e()), p.Power(e(), e()),
